@@ -126,6 +126,12 @@ impl RegionMetadata {
             return Err(Error::RegionMetadataUnwritten);
         }
         // Schedule writeback, then mark clean. Caller ensures durability via sync_data().
+        #[cfg(anydb_verif)]
+        crate::verif::emit(crate::verif::Event::FlushAsync {
+            file: crate::verif::FileKind::Regions,
+            off: index * SIZE_OF_REGION_METADATA,
+            len: SIZE_OF_REGION_METADATA,
+        });
         regions
             .mmap()
             .flush_async_range(index * SIZE_OF_REGION_METADATA, SIZE_OF_REGION_METADATA)?;
@@ -141,6 +147,18 @@ impl RegionMetadata {
     #[inline]
     pub(crate) fn mark_clean(&self) {
         self.state.set_is_clean();
+    }
+
+    /// 0 = clean, 1 = needs flush, 2 = needs write.
+    #[cfg(anydb_verif)]
+    pub fn verif_state(&self) -> u8 {
+        if self.state.is_clean() {
+            0
+        } else if self.state.needs_flush() {
+            1
+        } else {
+            2
+        }
     }
 
     fn to_bytes(&self) -> [u8; SIZE_OF_REGION_METADATA] {
